@@ -29,8 +29,8 @@ ASSUMPTIONS = ["clock steps >= 3 ms so millisecond truncation cannot confuse two
 REQUIRED_PROBES = ["default_overridden_by_context", "probe_key_consumed_downstream", "local_date_ne_utc_date",
                    "stall_between_start_and_end", "default_channel", "context_channel", "node_channel", "remote_executor"]
 CONFIG = {
-    "quick": {"runs": 600, "budget_s": 150, "timeout_s": 120},
-    "thorough": {"runs": 20000, "budget_s": 1500, "timeout_s": 120},
+    "quick": {"runs": 2000, "budget_s": 240, "timeout_s": 120},
+    "thorough": {"runs": 60000, "budget_s": 1500, "timeout_s": 120},
     "shrink_s": 40.0,
 }
 
